@@ -424,11 +424,8 @@ DEFS = {
 """),
     ],
     "mutants/c03_fix_setattr_by_bound_name_reverted": [
-        (CHK, """        wrapper = _decorate_with_invariants(
-            func=func, is_init=False, is_setattr=(name == "__setattr__")
-        )
-""", """        wrapper = _decorate_with_invariants(func=func, is_init=False)
-"""),
+        (CHK, """            is_setattr=(name == "__setattr__"),
+""", ""),
     ],
     "mutants/c03_call_wrappers_read_all_invariants": [
         (CHK, """                    if is_setattr
@@ -587,6 +584,11 @@ for _text_limit in ("maxstring", "maxother"):
          "        return super().repr_set(self._in_reproducible_order(x, level, self.maxset), level)  # type: ignore\n"),
         ("icontract/_globals.py", "        return super().repr_frozenset(self._in_reproducible_order(x, level), level)  # type: ignore\n",
          "        return super().repr_frozenset(self._in_reproducible_order(x, level, self.maxfrozenset), level)  # type: ignore\n"),
+    ],
+    "mutants/c14_fix_setstate_like_constructor_reverted": [
+        (CHK, """            is_init=(name == "__setstate__"),
+""", """            is_init=False,
+"""),
     ],
     "mutants/c14_fix_unreadable_class_attribute_reverted": [
         (CHK, """        try:
